@@ -3,7 +3,7 @@
    observations of a transaction all carry one digest (Deterministic), and a deviating
    observation is never accepted.  G: the run plan, printed as JSON.                       *)
 EXTENDS Determinism, Json
-CONSTANTS PlanMode      \* "quick" | "full"
+CONSTANTS PlanMode      \* "quick" | "small" | "full"
 VARIABLE obs            \* accepted observations <<run index, i, d>>
 MCRuns == {[diag |-> {}, cache |-> "warm", threads |-> 1, proc |-> "same"],
            [diag |-> Flags, cache |-> "cold", threads |-> 4, proc |-> "fresh"],
@@ -19,11 +19,11 @@ CanonIsObserved == \A i \in 1..NTx : canon[i] # None => \E o \in obs : o[2] = i 
 \* a deviating digest is refused
 Refuses == \A r \in MCRuns, i \in 1..NTx, d \in Digests : (canon[i] # None /\ canon[i] # d) => ~ENABLED Exec(r, i, d)
 
-Plan == IF PlanMode = "quick" THEN QuickPlan ELSE Runs
+Plan == IF PlanMode = "quick" THEN QuickPlan ELSE IF PlanMode = "small" THEN SmallPlan ELSE Runs
 RECURSIVE SeqOfSet(_)
 SeqOfSet(S) == IF S = {} THEN <<>> ELSE LET e == CHOOSE e \in S : TRUE IN <<e>> \o SeqOfSet(S \ {e})
 PlanSeq == SeqOfSet(Plan)
-ASSUME Cardinality(Runs) = 128 /\ QuickPlan \subseteq Runs /\ Cardinality(QuickPlan) = 16
+ASSUME Cardinality(Runs) = 128 /\ QuickPlan \subseteq Runs /\ Cardinality(QuickPlan) = 16 /\ SmallPlan \subseteq Runs /\ Cardinality(SmallPlan) = 6
 ASSUME \A k \in DOMAIN PlanSeq :
          PrintT(<<"B", ToJson([run |-> k, diag |-> SeqOfSet(PlanSeq[k].diag), cache |-> PlanSeq[k].cache,
                                threads |-> PlanSeq[k].threads, proc |-> PlanSeq[k].proc, len |-> RunLen(PlanSeq[k])])>>)
